@@ -16,7 +16,7 @@ import ast
 import math
 
 from ..interval import Analyzer, input_cells, order_feasible
-from ..model import Program, norm
+from ..model import Program, canonical_returns, inline_private_helpers, norm
 from ..report import AnalysisError
 
 PROP = "C20"
@@ -82,27 +82,66 @@ LOGOPS = {
 
 
 def _isinstance_branch(f):
-    """(statements before, If node) for the first `if isinstance(other, LogRepFloat)`."""
-    body = f.body_without_docstring()
-    for i, st in enumerate(body):
-        if isinstance(st, ast.If) and isinstance(st.test, ast.Call) and norm(st.test.func) == "isinstance" and norm(st.test.args[1]) == "LogRepFloat":
-            return body[:i], st, body[i + 1 :]
-        # inverted guard: `if not isinstance(other, LogRepFloat): <linear, returns>` followed by the log path
-        if (
-            isinstance(st, ast.If) and isinstance(st.test, ast.UnaryOp) and isinstance(st.test.op, ast.Not)
-            and isinstance(st.test.operand, ast.Call) and norm(st.test.operand.func) == "isinstance" and norm(st.test.operand.args[1]) == "LogRepFloat"
-            and st.body and isinstance(st.body[-1], (ast.Return, ast.Raise)) and not st.orelse
-        ):
-            synth = ast.copy_location(ast.If(test=st.test.operand, body=list(body[i + 1 :]), orelse=list(st.body)), st)
-            return body[:i], synth, []
-    return None, None, None
+    """(statements / tests evaluated before, If node, statements after) for the first
+    `if isinstance(other, LogRepFloat)` - also when it is written as an inverted guard or sits inside
+    the arm of an earlier test (canonical form pushes later code into the arms)."""
+
+    def is_inst(t):
+        return isinstance(t, ast.Call) and norm(t.func) == "isinstance" and len(t.args) == 2 and norm(t.args[1]) == "LogRepFloat"
+
+    def search(body, before):
+        for i, st in enumerate(body):
+            if isinstance(st, ast.If) and is_inst(st.test):
+                return before + list(body[:i]), st, list(body[i + 1 :])
+            if isinstance(st, ast.If) and isinstance(st.test, ast.UnaryOp) and isinstance(st.test.op, ast.Not) and is_inst(st.test.operand):
+                # inverted guard: the linear arm comes first
+                if st.orelse:
+                    synth = ast.copy_location(ast.If(test=st.test.operand, body=list(st.orelse) + list(body[i + 1 :]), orelse=list(st.body)), st)
+                    return before + list(body[:i]), synth, []
+                if st.body and isinstance(st.body[-1], (ast.Return, ast.Raise)):
+                    synth = ast.copy_location(ast.If(test=st.test.operand, body=list(body[i + 1 :]), orelse=list(st.body)), st)
+                    return before + list(body[:i]), synth, []
+            if isinstance(st, ast.If):
+                # an earlier test: look inside its arms; the test itself is evaluated before
+                guard = ast.copy_location(ast.Expr(value=st.test), st)
+                for arm in (st.body, st.orelse):
+                    got = search(list(arm), before + list(body[:i]) + [guard])
+                    if got[1] is not None:
+                        return got
+        return None, None, None
+
+    return search(f.body_without_docstring(), [])
+
+
+def _canon(f):
+    """The method with private helper methods inlined and in value-level normal form (temporaries
+    substituted, every path ending in its own return), so that the operator table does not depend on
+    how the branches are spelled."""
+    import dataclasses
+
+    g = dataclasses.replace(f, node=inline_private_helpers(f, methods=True))
+    return dataclasses.replace(g, node=canonical_returns(g.node))
+
+
+class _CanonMethods(dict):
+    def __init__(self, k):
+        super().__init__()
+        self.k = k
+
+    def get(self, name, default=None):
+        f = self.k.methods.get(name)
+        return _canon(f) if f is not None else default
+
+    def __getitem__(self, name):
+        return _canon(self.k.methods[name])
 
 
 def rule_r2(rep, program: Program):
     r = rep.rule("R2", "LogRepFloat operator table: log-space operation, argument order and comparison operator per dunder; LogRepFloat path stays in log space; zero guarded before log", floor=19)
     k = program.cls("LogRepFloat")
+    cm = _CanonMethods(k)
     for name, (kind, what) in LOGOPS.items():
-        f = k.methods.get(name)
+        f = cm.get(name)
         if f is None:
             raise AnalysisError(f"LogRepFloat.{name} not found")
         other = f.params[1]
@@ -160,7 +199,7 @@ def rule_r2(rep, program: Program):
             elif guard is None or norm(guard) not in (f"{a} >= {b}", f"{b} <= {a}"):
                 r.violate(PROP, f"LogRepFloat.__sub__:guard={norm(guard) if guard is not None else None}", "log_diff_exp is not guarded by self >= other (a negative difference has no log representation)", node=ifnode, file=f.file)
     # __iadd__ with a plain number: log(other) must be guarded against other == 0
-    f = k.methods["__iadd__"]
+    f = cm["__iadd__"]
     other = f.params[1]
     logs = [n for n in ast.walk(f.node) if isinstance(n, ast.Call) and norm(n.func) == "log" and n.args and norm(n.args[0]) == other]
     for n in logs:
@@ -170,7 +209,7 @@ def rule_r2(rep, program: Program):
             r.violate(PROP, "LogRepFloat.__iadd__:log-of-zero", "adding the plain number 0 evaluates log(0): math domain error", node=n, file=f.file)
     # comparisons
     for name, op in CMP.items():
-        f = k.methods.get(name)
+        f = cm.get(name)
         if f is None:
             raise AnalysisError(f"LogRepFloat.{name} not found")
         other = f.params[1]
@@ -193,7 +232,7 @@ def rule_r2(rep, program: Program):
         "__neg__": ("-self.val",),
     }
     for name, alts in forms.items():
-        f = k.methods.get(name)
+        f = cm.get(name)
         if f is None:
             raise AnalysisError(f"LogRepFloat.{name} not found")
         o = f.params[1] if len(f.params) > 1 else ""
